@@ -426,8 +426,12 @@ def normalize_url(
         fragment = safely_quote(fragment)
 
     # Result
+    # NOTE: the hostname is case-insensitive, the userinfo is not
+    if hostname:
+        hostname = hostname.lower()
+
     netloc = unsplit_netloc(user, password, hostname, port)
-    result = SplitResult(scheme, netloc.lower(), path, query, fragment)
+    result = SplitResult(scheme, netloc, path, query, fragment)
 
     if not unsplit:
         return result
